@@ -96,6 +96,11 @@ def r1(ctx, cfg):
     ctx.ob(R, key, "duplicate-id-rejected", dup, "save_code is reachable for an id that is already stored", fn=f, line=t["line"],
            sample="guard: !code_data.contains_key(&code_id)")
     ctx.ob(R, key, "zero-id-rejected", zero, "save_code is reachable for code id 0", fn=f, line=t["line"], sample="guard: code_id != 0")
+    # "zero and duplicates are rejected": no success result that did not go through the guarded save_code
+    cf0 = cfg_of(f)
+    out = [b for (b, i), v in q.success_return_sites(P, f) if not cf0.dominates(bid, b)]
+    ctx.ob(R, key, "succeeds-only-by-storing", not out, "store_code_with_id can produce a success at block(s) %s without having stored the code" % sorted(set(out)),
+           fn=f, sample="every non-Err result dominated by the guarded save_code")
     a = P.call_args(f, t, bid)
     ctx.ob(R, key, "stored-under-requested-id", is_param(a[1], "code_id") and is_param(a[2], "creator") and is_param(a[3], "code"),
            "save_code(%s)" % ", ".join(fmt(x) for x in a[1:]), fn=f, line=t["line"], sample="save_code(code_id, creator, code)")
@@ -251,6 +256,10 @@ def r4(ctx, cfg):
                         same_origin(peel(args[0])[2][2], addr) and is_param(peel(args[0])[2][1], "storage"))
         ctx.ob(R, key, "no-existing-contract-at-address", ok, "save_contract(addr) is reachable when a contract already exists at addr", fn=f,
                line=t["line"], sample="guard: !contract_data(storage, &addr).is_ok()")
+        out = q.successes_outside(P, f, lambda cs: q.succeeded(cs, W + "save_contract"))
+        ctx.ob(R, key, "succeeds-only-by-registering", not out,
+               "register_contract can produce a success at block(s) %s without the guarded save_contract having succeeded (a duplicate would be reported as created)" % out,
+               fn=f, sample="every non-Err result dominated by Continue(save_contract(..))")
         ctx.ob(R, key, "same-store", is_param(a[1], "storage"), "registry written to %s" % fmt(a[1]), fn=f, sample="storage")
         # the returned address is the registered one
         ret = P.ret(f)
